@@ -21,7 +21,7 @@ import "time"
 //vf:switches quick=1 thorough=2
 //vf:paths quick=400000 thorough=4000000
 //vf:unwind 16
-//vf:bound state 1 member of symbolic status; handler: memberlist join | leave | update | leave intent (force-leave of a failed member) | reap
+//vf:bound state 1 member of symbolic status; handler: memberlist join | leave | update | leave intent (force-leave of a failed member, with or without prune) | reap
 //vf:nonative
 func VfC16_SendUnderLock() {
 	ch := make(chan Event)
@@ -29,6 +29,10 @@ func VfC16_SendUnderLock() {
 	s.config.EventCh = ch
 	all := vfMembers(s, 1)
 	kind := vfChoice("handler", 5)
+	prune := false
+	if kind == 3 {
+		prune = vfBool("prune")
+	}
 	vfGo(func() {
 		switch kind {
 		case 0:
@@ -38,7 +42,7 @@ func VfC16_SendUnderLock() {
 		case 2:
 			s.handleNodeUpdate(vfNode("m0"))
 		case 3:
-			s.handleNodeLeaveIntent(&messageLeave{LTime: LamportTime(vfU64("lt")), Node: "m0"})
+			s.handleNodeLeaveIntent(&messageLeave{LTime: LamportTime(vfU64("lt")), Node: "m0", Prune: prune})
 		case 4:
 			s.memberLock.Lock()
 			s.failedMembers = s.reap(s.failedMembers, time.Now().Add(time.Hour*100), time.Hour)
@@ -68,7 +72,8 @@ func VfC16_SendUnderLock() {
 	}
 	vfWaitThreads()
 	vfReach("C16.lock.done")
-	vfAssert("C16.lock.atmostone", n <= 1)
+	// one status change, one event; a force-leave with prune of a failed member is two changes (left, then erased)
+	vfAssert("C16.lock.atmostone", n <= 1 || (prune && n == 2))
 	_ = all
 }
 
